@@ -15,6 +15,7 @@ import (
 	"verif/h/llvmx"
 	"verif/h/lx"
 	"verif/h/mut"
+	"verif/h/reduce"
 	"verif/h/typing"
 )
 
@@ -32,6 +33,20 @@ func check(t hx.TB, test string, m *am.Module, validate bool) bool {
 				msg = msg[:600]
 			}
 			hx.Fail(t, test, "ll", x, "the parser rejects a valid module over a type it computed itself: %s", msg)
+		}
+		// a rejection that delta debugging pins on a getelementptr: the parser computes no type at all
+		// for an index form LLVM accepts
+		if llvmx.Accept(x).OK {
+			rejects := func(c string) bool {
+				_, e, pp := lx.Parse(c)
+				return (e != nil || pp != nil) && llvmx.Accept(c).OK
+			}
+			if min := reduce.Lines(x, 120, rejects); strings.Contains(min, "getelementptr") {
+				if len(msg) > 600 {
+					msg = msg[:600]
+				}
+				hx.Fail(t, test, "ll", min, "the parser rejects a valid module whose minimal form is a getelementptr (no type is computed for this index form): %s", msg)
+			}
 		}
 		hx.Discard("parser_does_not_accept(judged_by_C01)")
 		return false
